@@ -196,45 +196,43 @@ theorem margin_plain {expiry : Nat} {height delta : Int}
 
 /-! ### must: states_monotone -/
 
-/-- **states_monotone** (one event). Every invoice of a reachable registry — plain (`Mono`) or AMP
-    — is still present after the next event with the same terms, its state moved along
-    open → accepted → settled | canceled (AMP: open → canceled), and each of its htlcs is still
-    recorded with the same terms and a state moved along accepted → settled | canceled; a settled
-    AMP htlc keeps its preimage.  For AMP invoices this is `AMonoD (!cfg.sql)`: on the native SQL
-    store exactly the statement above (`AMono`, see `states_monotone_sql`); on the kv store an AMP
-    htlc that is no longer accepted may be missing afterwards (lnd's kv store forgets the settled /
-    canceled htlcs of a set id when a settled set id is paid again: finding
-    F-c15-kv-amp-setid-reuse), every accepted AMP htlc is still recorded. -/
+/-- **states_monotone** (one event, both stores). Every invoice of a reachable registry — plain
+    (`Mono`) or AMP (`AMono`) — is still present after the next event with the same terms, its
+    state moved along open → accepted → settled | canceled (AMP: open → canceled), and each of its
+    htlcs is still recorded with the same terms and a state moved along
+    accepted → settled | canceled; a settled AMP htlc keeps its preimage.  (Before lnd 4ae3b4a the
+    kv store forgot the settled / canceled htlcs of a set id when a settled set id was paid again,
+    finding F-c15-kv-amp-setid-reuse, and the AMP half held on the native SQL store only.) -/
 theorem states_monotone (H : Nat → Nat) (P : List (Nat × Nat) → Nat → Nat → Nat) (cfg : Cfg)
     (evs : List Event) (e : Event) :
     let reg := run H P cfg Reg.empty evs
     (∀ i ∈ reg.invs, ∃ i' ∈ (step H P cfg reg e).1.invs, Mono i i') ∧
-    (∀ a ∈ reg.amps, ∃ a' ∈ (step H P cfg reg e).1.amps, AMonoD (!cfg.sql) a a') := by
+    (∀ a ∈ reg.amps, ∃ a' ∈ (step H P cfg reg e).1.amps, AMono a a') := by
   intro reg
-  exact step_monoD (reachable_good H P cfg evs)
+  exact step_mono (reachable_good H P cfg evs)
 
-/-- **states_monotone** on the native SQL store: AMP invoices too keep every htlc. -/
+/-- **states_monotone** for AMP invoices alone (kept under its old name; no store hypothesis any
+    more). -/
 theorem states_monotone_sql (H : Nat → Nat) (P : List (Nat × Nat) → Nat → Nat → Nat) (cfg : Cfg)
-    (hsql : cfg.sql = true) (evs : List Event) (e : Event) :
+    (evs : List Event) (e : Event) :
     let reg := run H P cfg Reg.empty evs
     (∀ a ∈ reg.amps, ∃ a' ∈ (step H P cfg reg e).1.amps, AMono a a') := by
   intro reg
-  exact (step_mono (reachable_good H P cfg evs) hsql).2
+  exact (step_mono (reachable_good H P cfg evs)).2
 
-/-- **states_monotone** (any number of further events): plain invoices on both stores, AMP
-    invoices on the native SQL store. -/
+/-- **states_monotone** (any number of further events, plain and AMP invoices, both stores). -/
 theorem states_monotone_run (H : Nat → Nat) (P : List (Nat × Nat) → Nat → Nat → Nat) (cfg : Cfg)
     (evs more : List Event) :
     let reg := run H P cfg Reg.empty evs
     (∀ i ∈ reg.invs, ∃ i' ∈ (run H P cfg reg more).invs, Mono i i') ∧
-    (cfg.sql = true → ∀ a ∈ reg.amps, ∃ a' ∈ (run H P cfg reg more).amps, AMono a a') := by
+    (∀ a ∈ reg.amps, ∃ a' ∈ (run H P cfg reg more).amps, AMono a a') := by
   intro reg
   have hg : RegGood H cfg.rejectDelta reg := reachable_good H P cfg evs
   clear_value reg
   induction more generalizing reg with
-  | nil => exact ⟨fun i hi => ⟨i, hi, Mono.refl i⟩, fun _ a ha => ⟨a, ha, AMono.refl a⟩⟩
+  | nil => exact ⟨fun i hi => ⟨i, hi, Mono.refl i⟩, fun a ha => ⟨a, ha, AMono.refl a⟩⟩
   | cons e es ih =>
-    obtain ⟨s1, s2⟩ := step_monoD (P := P) (cfg := cfg) (e := e) hg
+    obtain ⟨s1, s2⟩ := step_mono (P := P) (cfg := cfg) (e := e) hg
     have hg1 := step_good (P := P) (e := e) hg rfl
     obtain ⟨t1, t2⟩ := ih _ hg1
     refine ⟨?_, ?_⟩
@@ -242,9 +240,9 @@ theorem states_monotone_run (H : Nat → Nat) (P : List (Nat × Nat) → Nat →
       obtain ⟨i1, h1, m1⟩ := s1 i hi
       obtain ⟨i2, h2, m2⟩ := t1 i1 h1
       exact ⟨i2, h2, m1.trans m2⟩
-    · intro hsql a ha
-      obtain ⟨a1, h1, m1⟩ := (step_mono (P := P) (cfg := cfg) (e := e) hg hsql).2 a ha
-      obtain ⟨a2, h2, m2⟩ := t2 hsql a1 h1
+    · intro a ha
+      obtain ⟨a1, h1, m1⟩ := s2 a ha
+      obtain ⟨a2, h2, m2⟩ := t2 a1 h1
       exact ⟨a2, h2, m1.trans m2⟩
 
 /-- no htlc is both settled and canceled: a settled htlc stays settled, a canceled one stays
@@ -773,6 +771,137 @@ example :
     (step exH exP exCfg reg (.cancel 1007)).2.msgs = [] ∧
     (step exH exP exCfg (run exH exP exCfg Reg.empty [.addInvoice exInv, .notify (exShard 1 60)])
       (.tick 30)).2.msgs = [(1, .fail .mppTimeout 100)] := by
+  decide
+
+/-! ### the same two statements for AMP htlcs (both stores since lnd 4ae3b4a) -/
+
+theorem akey_inj {l : List AHtlc} (hn : (l.map (·.base.key)).Nodup) {y h : AHtlc} (hy : y ∈ l)
+    (hh : h ∈ l) (he : y.base.key = h.base.key) : y = h := by
+  induction l with
+  | nil => cases hh
+  | cons x t ih =>
+    simp only [List.map_cons, List.nodup_cons] at hn
+    obtain ⟨hx, ht⟩ := hn
+    rcases List.mem_cons.mp hy with rfl | hy'
+    · rcases List.mem_cons.mp hh with rfl | hh'
+      · rfl
+      · exact absurd (List.mem_map.mpr ⟨h, hh', he.symm⟩) hx
+    · rcases List.mem_cons.mp hh with rfl | hh'
+      · exact absurd (List.mem_map.mpr ⟨y, hy', he⟩) hx
+      · exact ih ht hy' hh'
+
+/-- an AMP htlc that is recorded settled stays settled, a canceled one stays canceled, in every
+    later version of the AMP invoice. -/
+theorem amp_settled_xor_canceled {a b : AmpInv} (hm : AMono a b) {h : AHtlc} (hh : h ∈ a.htlcs) :
+    ∃ h' ∈ b.htlcs, h'.base.key = h.base.key ∧ (h.base.state = .settled → h'.base.state = .settled) ∧
+      (h.base.state = .canceled → h'.base.state = .canceled) := by
+  obtain ⟨h', hh', e, _, _, _, _, l, _⟩ := hm.2.2.2.2.2 h hh
+  refine ⟨h', hh', by rw [e], ?_, ?_⟩
+  · intro hs; rw [hs] at l; exact l
+  · intro hs; rw [hs] at l; exact l
+
+/-- **a canceled AMP htlc is never settled** (resolution level, both stores).  Let AMP htlc `h` be
+    recorded canceled on an AMP invoice of a reachable registry (CancelInvoice, the hold timer =
+    set timeout, a failed reconstruction / set failure).  After any further events — including
+    payments that reuse its set id, the situation of the former finding
+    F-c15-kv-amp-setid-reuse — no event produces a settle resolution for `h`'s circuit key,
+    neither as the answer of NotifyExitHopHtlc for that key nor on a hodl subscription, provided
+    that afterwards no other invoice records the same circuit key. -/
+theorem amp_canceled_never_settles (H : Nat → Nat) (P : List (Nat × Nat) → Nat → Nat → Nat)
+    (cfg : Cfg) (evs more : List Event) (e : Event) :
+    let reg := run H P cfg Reg.empty evs
+    let reg2 := run H P cfg reg more
+    let reg3 := (step H P cfg reg2 e).1
+    let out := (step H P cfg reg2 e).2
+    ∀ a ∈ reg.amps, ∀ h ∈ a.htlcs, h.base.state = .canceled →
+      (∀ i ∈ reg3.invs, ∀ g ∈ i.htlcs, g.key ≠ h.base.key) →
+      (∀ b ∈ reg3.amps, b.hash ≠ a.hash → ∀ g ∈ b.htlcs, g.base.key ≠ h.base.key) →
+      (∀ kind p ht, (h.base.key, Res.settle kind p ht) ∉ out.msgs) ∧
+      (∀ ctx kind p ht, e = .notify ctx → ctx.key = h.base.key →
+        out.reply ≠ .res (.settle kind p ht)) := by
+  intro reg reg2 reg3 out a ha h hh hcan huniq huniqA
+  have hreg2 : reg2 = run H P cfg Reg.empty (evs ++ more) := by
+    simp only [reg2, reg]; rw [run_append]
+  have hreg3 : reg3 = run H P cfg Reg.empty (evs ++ (more ++ [e])) := by
+    simp only [reg3, reg2, reg]
+    rw [run_append, run_append]; rfl
+  have hg3 : RegGood H cfg.rejectDelta reg3 := by rw [hreg3]; exact reachable_good H P cfg _
+  obtain ⟨a3, ha3, hmono⟩ : ∃ a' ∈ reg3.amps, AMono a a' := by
+    have := (states_monotone_run H P cfg evs (more ++ [e])).2 a ha
+    rw [hreg3, run_append]; exact this
+  obtain ⟨h3, hh3, hk3, _, hc3⟩ := amp_settled_xor_canceled hmono hh
+  have hc3' : h3.base.state = .canceled := hc3 hcan
+  have key : ∀ p, ¬ (Paid H cfg.rejectDelta reg3 h.base.key p ∨
+      PaidAmp H cfg.rejectDelta reg3 h.base.key p) := by
+    intro p hp
+    rcases hp with ⟨i, hi, _, _, _, g, hg, hgk, _⟩ | ⟨b, hb, g, hg, hgk, hgs, _⟩
+    · exact huniq i hi g hg hgk
+    · by_cases c : b.hash = a.hash
+      · have : b = a3 := ahash_inj hg3.anodup hb ha3 (c.trans hmono.1)
+        subst this
+        have : g = h3 := akey_inj (hg3.agood b hb).nodup hg hh3 (hgk.trans hk3.symm)
+        subst this
+        rw [hgs] at hc3'; cases hc3'
+      · exact huniqA b hb c g hg hgk
+  have sp := settle_only_if_paid H P cfg (evs ++ more) e
+  simp only at sp
+  rw [← hreg2] at sp
+  refine ⟨?_, ?_⟩
+  · intro kind p ht hmsg
+    exact key p (sp.2 h.base.key kind p ht hmsg)
+  · intro ctx kind p ht he hk hrep
+    have := (sp.1 ctx kind p ht he hrep).2
+    rw [hk] at this
+    exact key p this
+
+/-- **a settled AMP htlc is never canceled** (resolution level, both stores): no later event
+    delivers a fail resolution for its circuit key on a hodl subscription, provided that
+    afterwards no other invoice records the same circuit key. -/
+theorem amp_settled_never_canceled (H : Nat → Nat) (P : List (Nat × Nat) → Nat → Nat → Nat)
+    (cfg : Cfg) (evs more : List Event) (e : Event) :
+    let reg := run H P cfg Reg.empty evs
+    let reg2 := run H P cfg reg more
+    let reg3 := (step H P cfg reg2 e).1
+    let out := (step H P cfg reg2 e).2
+    ∀ a ∈ reg.amps, ∀ h ∈ a.htlcs, h.base.state = .settled →
+      (∀ i ∈ reg3.invs, ∀ g ∈ i.htlcs, g.key ≠ h.base.key) →
+      (∀ b ∈ reg3.amps, b.hash ≠ a.hash → ∀ g ∈ b.htlcs, g.base.key ≠ h.base.key) →
+      ∀ r ah, (h.base.key, Res.fail r ah) ∉ out.msgs := by
+  intro reg reg2 reg3 out a ha h hh hset huniq huniqA r ah hmsg
+  have hreg3 : reg3 = run H P cfg Reg.empty (evs ++ (more ++ [e])) := by
+    simp only [reg3, reg2, reg]
+    rw [run_append, run_append]; rfl
+  have hg3 : RegGood H cfg.rejectDelta reg3 := by rw [hreg3]; exact reachable_good H P cfg _
+  obtain ⟨a3, ha3, hmono⟩ : ∃ a' ∈ reg3.amps, AMono a a' := by
+    have := (states_monotone_run H P cfg evs (more ++ [e])).2 a ha
+    rw [hreg3, run_append]; exact this
+  obtain ⟨h3, hh3, hk3, hs3, _⟩ := amp_settled_xor_canceled hmono hh
+  have hs3' : h3.base.state = .settled := hs3 hset
+  rcases step_fail_canceled hmsg with ⟨i, hi, g, hg, hgk, _⟩ | ⟨b, hb, g, hg, hgk, hgc⟩
+  · exact huniq i hi g hg hgk
+  · by_cases c : b.hash = a.hash
+    · have : b = a3 := ahash_inj hg3.anodup hb ha3 (c.trans hmono.1)
+      subst this
+      have : g = h3 := akey_inj (hg3.agood b hb).nodup hg hh3 (hgk.trans hk3.symm)
+      subst this
+      rw [hgc] at hs3'; cases hs3'
+    · exact huniqA b hb c g hg hgk
+
+
+/-- non-vacuity of the AMP statements, on the kv store (`exCfg.sql = false`), with the input of the
+    former finding F-c15-kv-amp-setid-reuse: a set of 60 + 40 settles, then the same set id is
+    paid again in full (key 3).  The two earlier htlcs are still recorded settled, a replay of
+    key 2 is answered `ReplayToSettled` with its own child preimage, and a later CancelInvoice
+    delivers no fail resolution. -/
+example :
+    let reg := run exH exP exCfg Reg.empty
+      [.addInvoice exAmpInv, .notify (exAmpShard 1 60 5 0 1005), .notify (exAmpShard 2 40 6 1 1007),
+       .notify (exAmpShard 3 100 8 2 1010)]
+    (∃ a ∈ reg.amps, (a.htlcs.map (fun h => (h.base.key, h.base.state))) =
+        [(1, .settled), (2, .settled), (3, .settled)]) ∧
+    (step exH exP exCfg reg (.notify (exAmpShard 2 40 6 1 1007))).2.reply =
+      .res (.settle .replayToSettled 7 100) ∧
+    (step exH exP exCfg reg (.cancel 2000)).2.msgs = [] := by
   decide
 
 end LndModel.C15
